@@ -661,8 +661,11 @@ struct World {
 		if (s.applyBegun) V("C03", "guard-after-enter-exit", fmt("entryGuard of %u delivered after enter/exit/reenter of the same call; %s", sid, tail().c_str()));
 		if (sid == ROOT) return; // root guards are not part of request processing; nothing is stated about them
 		if (!s.roundOpen || !s.rounds.back().exitSeen || s.rounds.back().entrySeen) {
-			if (in.sees(static_cast<unsigned>(in.cur)))
+			if (in.sees(static_cast<unsigned>(in.cur))) {
 				V("C03", "entry-guard-without-exit-guard", fmt("entryGuard of %u consulted without the active state's exitGuard first; %s", sid, tail().c_str()));
+				// C04: whatever is accepted must have passed its guards - this request was never shown to the exit guard
+				V("C04", "request-evaluated-without-its-exit-guard", fmt("a request for %u went to the entry guard without the active state's exitGuard having been consulted: if accepted it did not pass its guards; %s", sid, tail().c_str()));
+			}
 			// keep the bookkeeping going: treat as a round of its own
 			finalizeRound(in);
 			Round r; r.pending = in.latest; in.latest = Req{}; r.exitSeen = true;
@@ -766,7 +769,8 @@ struct World {
 		flags |= F_REPORT;
 		if (success) { in.succMay[target] = in.succMust[target] = true; s.anySuccNow = true; }
 		else { in.failMay[target] = in.failMust[target] = true; s.anyFailNow = true; }
-		if (fromCallback && (s.op == OP_UPDATE || s.op == OP_REACT) && static_cast<int>(callerSid) == s.cur0 && target == callerSid && s.planPhase == 0 && s.outcomes == 0 && s.guardDeliveries == 0) {
+		// a report for the active state made during the phases of this cycle - by the state itself or, naming it, by the root head
+		if (fromCallback && (s.op == OP_UPDATE || s.op == OP_REACT) && (static_cast<int>(callerSid) == s.cur0 || callerSid == ROOT) && static_cast<int>(target) == s.cur0 && s.planPhase == 0 && s.outcomes == 0 && s.guardDeliveries == 0) {
 			if (success) s.curReportedSuccess = true; else s.curReportedFailure = true;
 		}
 		s.userClearAfterReport = false;
